@@ -265,4 +265,35 @@ theorem pathWithHops_spec (strict : QueryIdioms.hopsReplaceStrict = true) (g : T
   · right
     exact ⟨mem_candidates.1 hm, fun q hq => hmin q (mem_candidates.2 hq)⟩
 
+/-- the hop test only looks at which ids are listed: repeats and order are irrelevant -/
+theorem hopOk_congr {g : TGraph} {hs hs' : List String} (h : ∀ x, x ∈ hs ↔ x ∈ hs') (p : List String) :
+    hopOk g hs p = hopOk g hs' p := by
+  unfold hopOk
+  congr 1
+  rw [Bool.eq_iff_iff, List.all_eq_true, List.all_eq_true]
+  exact ⟨fun hh x hx => hh x ((h x).2 hx), fun hh x hx => hh x ((h x).1 hx)⟩
+
+theorem pathWithHops_congr {g : TGraph} {a z : String} {hs hs' : List String} (h : ∀ x, x ∈ hs ↔ x ∈ hs') (cutoff : Nat) :
+    pathWithHops g a z hs cutoff = pathWithHops g a z hs' cutoff := by
+  unfold pathWithHops
+  have : hopOk g hs = hopOk g hs' := funext (hopOk_congr h)
+  rw [this]
+
+theorem chain_nodes_in_verts {g : TGraph} (hends : ∀ e ∈ g.edges, e.1 ∈ verts g ∧ e.2.1 ∈ verts g) :
+    ∀ (p : List String) (a : String), p.head? = some a → a ∈ verts g → IsChain (Adj g none) p → ∀ x ∈ p, x ∈ verts g
+  | [], _, hh, _, _ => by simp at hh
+  | [v], a, hh, ha, _ => by
+    intro x hx; simp at hh hx; subst hh; subst hx; exact ha
+  | v :: w :: t, a, hh, ha, hc => by
+    intro x hx
+    simp at hh; subst hh
+    rcases List.mem_cons.1 hx with rfl | hx
+    · exact ha
+    · obtain ⟨r, he, _⟩ := hc.1
+      have hw : w ∈ verts g := by
+        rcases he with he | he
+        · exact (hends _ he).2
+        · exact (hends _ he).1
+      exact chain_nodes_in_verts hends (w :: t) w rfl hw hc.2 x hx
+
 end FimVerif.Query
